@@ -68,6 +68,7 @@ func (b *BufferBatchGetter) BatchGet(ctx context.Context, keys [][]byte, options
 		return b.snapshot.BatchGet(ctx, keys, options...)
 	}
 	shrinkKeys := make([][]byte, 0, len(keys)-len(bufferValues))
+	var deletedKeys [][]byte
 	for _, key := range keys {
 		val, ok := bufferValues[string(key)]
 		if !ok {
@@ -75,9 +76,13 @@ func (b *BufferBatchGetter) BatchGet(ctx context.Context, keys [][]byte, options
 			continue
 		}
 		// the deleted key should be removed from the result, and also no need to snapshot read it again.
+		// It is removed after the loop: keys may list it twice, and the second occurrence must still find it.
 		if val.IsValueEmpty() {
-			delete(bufferValues, string(key))
+			deletedKeys = append(deletedKeys, key)
 		}
+	}
+	for _, key := range deletedKeys {
+		delete(bufferValues, string(key))
 	}
 	storageValues, err := b.snapshot.BatchGet(ctx, shrinkKeys, options...)
 	if err != nil {
@@ -116,6 +121,7 @@ func (b *BufferSnapshotBatchGetter) BatchGet(ctx context.Context, keys [][]byte,
 		return b.snapshot.BatchGet(ctx, keys, options...)
 	}
 	shrinkKeys := make([][]byte, 0, len(keys)-len(bufferValues))
+	var deletedKeys [][]byte
 	for _, key := range keys {
 		val, ok := bufferValues[string(key)]
 		if !ok {
@@ -123,9 +129,13 @@ func (b *BufferSnapshotBatchGetter) BatchGet(ctx context.Context, keys [][]byte,
 			continue
 		}
 		// the deleted key should be removed from the result, and also no need to snapshot read it again.
+		// It is removed after the loop: keys may list it twice, and the second occurrence must still find it.
 		if val.IsValueEmpty() {
-			delete(bufferValues, string(key))
+			deletedKeys = append(deletedKeys, key)
 		}
+	}
+	for _, key := range deletedKeys {
+		delete(bufferValues, string(key))
 	}
 	storageValues, err := b.snapshot.BatchGet(ctx, shrinkKeys, options...)
 	if err != nil {
